@@ -18,6 +18,19 @@ var VerifHashHook func(hf HashFunction, typeValue uint32, buf, out []uint8)
 // site 1 = fast-forward (SetIndex).
 var VerifRoundHook func(site int, leafIdx uint32)
 
+// VerifNodeHook, when installed, may supply the value of the tree node that
+// hashH is about to compute for addr (returning true). Used to walk the BDS
+// traversal of very tall trees without hashing: every inner node is then a
+// cheap function of its position.
+var VerifNodeHook func(hf HashFunction, out []uint8, addr *[8]uint32) bool
+
+func verifNode(hf HashFunction, out []uint8, addr *[8]uint32) bool {
+	if VerifNodeHook != nil {
+		return VerifNodeHook(hf, out, addr)
+	}
+	return false
+}
+
 func verifLeaf(hf HashFunction, leaf []uint8, otsAddr *[8]uint32) bool {
 	if VerifLeafHook != nil {
 		return VerifLeafHook(hf, leaf, otsAddr[4])
